@@ -12,7 +12,7 @@ RULE = ("every undirected graph on n <= 5 (thorough 6) labelled nodes, as a symm
         "linkage at t with the components of the max_edits=t neighbour graph; non-trivial = at least one edge")
 ASSUMPTIONS = ["SciPy linkage/fcluster and igraph community detection are the trusted base named by the property; community variants are only required to stay inside connected components",
                "rapidfuzz cdist workers=-1 answered with one thread"]
-REQUIRED_CLASSES = {"all": ["empty-neighbour-list", "isolated-node", "distance-0-edge", "float-distances", "string-labels", "series-labels", "tcr-table", "single-linkage-identity", "repeated-node-labels", "empty-linkage_kws", "self-matches-in-neighbour-list", "partial-cluster_kws", "missing-node-labels", "ward-centroid-linkage", "merge-height-above-largest-distance", "explicit-metric-object", "same-concatenation-different-split"]}
+REQUIRED_CLASSES = {"all": ["empty-neighbour-list", "isolated-node", "distance-0-edge", "float-distances", "string-labels", "series-labels", "tcr-table", "single-linkage-identity", "repeated-node-labels", "empty-linkage_kws", "self-matches-in-neighbour-list", "partial-cluster_kws", "missing-node-labels", "ward-centroid-linkage", "merge-height-above-largest-distance", "explicit-metric-object", "same-concatenation-different-split", "tcr-distances-beyond-the-plotting-bins", "explicit-chain-weights"]}
 MIN_OUTCOMES = 10
 SINGLE_THREAD_RAPIDFUZZ = True
 METHODS = ("cc", "fastgreedy", "multilevel", "leiden")
@@ -53,6 +53,12 @@ def spaces(tier):
                 if n == 4 and tab[0] > tab[-1]:
                     continue
                 yield ("tcrx", tab)
+        # CDR3s more than 25 / 50 edits apart: the metric classes' plotting bins end there, the distances handed to SciPy do not
+        XL = (("CAVS", "SGQYF"), ("CAVS" + "GNTEAFFGQGTRLTVVEDLKNVFPPEVAV", "SGQYF"), ("CAV", "CASS" + "LGQGNTEAFFGQGTRLTVVEDLKNVFPPE"), ("CAVSW", "SGQYFW"),
+              ("CAVS" + "GNTEAFFGQGTRLTVVEDLKNVFPPEVAV", "CASS" + "LGQGNTEAFFGQGTRLTVVEDLKNVFPPE"))
+        for n in (2, 3):
+            for tab in itertools.permutations(XL, n):
+                yield ("tcrx", tab)
 
     def gen_big():
         # SciPy's optimal leaf ordering needs minutes for > 5e6 distances: thorough tier only
@@ -64,7 +70,7 @@ def spaces(tier):
         Space("all-graphs", gen_graphs, "every undirected graph on 1..5 labelled nodes (thorough: + a quarter of the 6-node graphs) x 3 triplet forms x 3 label spellings x 4 methods", shards=32),
         Space("neighbour-lists-from-search", gen_nn, "Lists(U(AC,2),4|5) x k in 1..2 x {nearest_neighbor, kdtree hamming (float d), symdel custom float}; includes empty lists and distance-0 duplicates", shards=32),
         Space("hierarchical-all-lists", gen_hier, "Lists(U(AC,2),4|5), N>=2 x linkage in {single, average, complete} x t in 0..3; single-linkage == components identity", shards=64),
-        Space("hierarchical-tcr-tables", gen_tcr, "tables of 2..3(4) rows over 4x3 CDR3 pairs (3-/4-row tables thinned by a fixed stride), column sets alpha/beta/both, shifted index, legacy tuple"),
+        Space("hierarchical-tcr-tables", gen_tcr, "tables of 2..3(4) rows over 4x3 CDR3 pairs (3-/4-row tables thinned by a fixed stride), column sets alpha/beta/both, shifted index, legacy tuple; receptors with CDR3s of up to 33 residues (distances beyond the metric classes' plotting bins of 25 / 50)"),
     ]
 
 
@@ -377,6 +383,8 @@ def check_case(case, acc):
             B = [b for a, b in tab]
         n = len(tab)
         da = np.array([ref_lev(A[i], A[j]) for i in range(n) for j in range(i + 1, n)], dtype=float)
+        if kind == "tcrx" and max(len(x) for x in A + B) > 25:
+            acc.cls("tcr-distances-beyond-the-plotting-bins")
         db = np.array([ref_lev(B[i], B[j]) for i in range(n) for j in range(i + 1, n)], dtype=float)
         variants = {"alpha": (pd.DataFrame({"CDR3A": A}), da), "beta": (pd.DataFrame({"CDR3B": B}, index=range(5, 5 + n)), db),
                     "both": (pd.DataFrame({"TRBV": ["TRBV2*01"] * n, "CDR3B": B, "CDR3A": A}, index=range(5, 5 + n)), da + db),
@@ -396,6 +404,19 @@ def check_case(case, acc):
                     acc.fail("hierarchical_clustering/tcr-table/%s" % name, case, {"linkage": eL.tolist(), "cluster": eC.tolist()}, r if raised(r) else {"linkage": np.asarray(r[0]).tolist(), "cluster": list(map(int, r[1]))}, note="%s t=%d" % (method, t))
                     return
                 acc.ok((name, method, t, tuple(eC.tolist())), nontrivial=len(set(eC)) < n)
+        # an explicitly weighted paired metric: alpha_weight * lev(CDR3A) + beta_weight * lev(CDR3B), chains not interchangeable
+        from pyrepseq.metric.tcr_metric import Cdr3Levenshtein
+        acc.cls("explicit-chain-weights")
+        for wa, wb in ((3, 1), (1, 2)):
+            lk = dict(method="average", optimal_ordering=True)
+            ck = dict(t=2, criterion="distance")
+            r = acc.call(pyrepseq.hierarchical_clustering, variants["both"][0], metric=Cdr3Levenshtein(alpha_weight=wa, beta_weight=wb), linkage_kws=lk, cluster_kws=ck)
+            eL = hc.linkage(wa * da + wb * db, **lk)
+            eC = hc.fcluster(eL, **ck)
+            if raised(r) or not np.array_equal(np.asarray(r[0]), eL) or list(r[1]) != list(eC):
+                acc.fail("hierarchical_clustering/tcr-table/explicit-chain-weights", case, {"linkage": eL.tolist(), "cluster": eC.tolist()}, r if raised(r) else {"linkage": np.asarray(r[0]).tolist(), "cluster": list(map(int, r[1]))}, note="alpha_weight=%d beta_weight=%d" % (wa, wb))
+                return
+            acc.ok(("w", wa, wb, tuple(eC.tolist())), nontrivial=True)
     else:
         raise HarnessError("unknown case %r" % (case,))
 
